@@ -152,7 +152,10 @@ def declare(reg):
                  from_stmt="super(CommandOutputProvider, self).__init__()", from_after=True,
                  modifies=["CmdProvider." + f for f in ("cmd", "root", "save_as", "ctx", "args", "split", "keep_rc", "ds", "timeout", "inherit_env", "override_env",
                                                         "signum", "rc", "cleaner", "_content", "_env", "_filterable", "_filters", "relative_path")],
-                 raises=CRAISES, ensures=["self.ctx == ctx"] + VALIDC("self"))
+                 raises=CRAISES,
+                 # the deny list is consulted for the command text the constructor was GIVEN (what the spec declares), not for a rewritten one
+                 ensures=["self.ctx == ctx"] + VALIDC("self") +
+                         ["implies(uf('is_host_context', BOOL, ctx), not %s)" % DENIED.format(S="uf('cmd_deny', Set(STR))", c="old(cmd)")])
     reg.cls("CFactory", pyclasses=["simple_command"], cmd=STR, context=PY, save_as=Opt(STR), split=BOOL, keep_rc=BOOL, timeout=PY, inherit_env=PY, override_env=PY,
             signum=PY, __truthy__=True)
     CB = Ref("CBroker")
@@ -162,11 +165,14 @@ def declare(reg):
                   ensures=["result == uf('held_ctx', Ref('Ctx'), self, key)"], note="broker[context]: the execution context the broker holds")
     reg.external("CommandOutputProvider", params=collections.OrderedDict(list(CMD_ARGS.items())[:-6] + [("ds", Ref("CFactory"))] + list(CMD_ARGS.items())[-5:]),
                  defaults=CMD_DEF, returns=CP, raises=CRAISES, raise_frame="unchanged",
-                 ensures=["result.ctx == ctx"] + VALIDC("result"),
+                 ensures=["result.ctx == ctx"] + VALIDC("result") +
+                         ["implies(uf('is_host_context', BOOL, ctx), not %s)" % DENIED.format(S="uf('cmd_deny', Set(STR))", c="cmd")],
                  note="constructing a CommandOutputProvider runs CommandOutputProvider.__init__ (verified above) on a new object")
     reg.contract(SF, "simple_command.__call__", params=collections.OrderedDict(self=Ref("CFactory"), broker=CB), returns=CP,
                  raises=dict(CRAISES, KeyError=None),
-                 ensures=["result.ctx == uf('held_ctx', Ref('Ctx'), broker, self.context)"] + VALIDC("result"))
+                 ensures=["result.ctx == uf('held_ctx', Ref('Ctx'), broker, self.context)"] + VALIDC("result") +
+                         # the command the factory declares is never handed out for execution on a host when it is denied
+                         ["implies(uf('is_host_context', BOOL, result.ctx), not %s)" % DENIED.format(S="uf('cmd_deny', Set(STR))", c="self.cmd")])
     # other os.path functions a change might reach for: arbitrary (unrelated to realpath unless stated)
     for n in ("os.path.islink", "os.path.isfile", "os.path.isdir", "os.path.isabs"):
         reg.external(n, params=dict(p=STR), returns=BOOL, pure=True, ensures=["result == uf('%s', BOOL, p)" % n.replace(".", "_")])
